@@ -158,6 +158,13 @@ class C01(Check):
                     for m in members:
                         arch.write_member(z, m, work)
                     z.close()
+                except UnsupportedCompressionMethodError as e:
+                    # the chain is only examined when the first member is written: same verdict as a rejection at open
+                    out.label("rejected_config")
+                    out.nontrivial = False
+                    if G.chain_family(filters) in DOCUMENTED:
+                        out.violate({"kind": "documented-chain-rejected", "chain": fam}, observed=repr(e)[:200], expected="accepted")
+                    return out
                 except Exception as e:
                     cls, frame = arch.exc_sig(e)
                     out.violate(dict(sig_base, kind="write-raises", exc=cls, frame=frame), observed=repr(e)[:300], expected="archive written")
